@@ -411,6 +411,21 @@ func c09Resync(p *chk.Prog, r *chk.Report) {
 		g := sn.Graph()
 		node := isParam(sn, "node")
 		changed := definedBy(g, "isNodeAvailableChanged(RECV.nodes, N)", chk.H("N", node))
+		compared := sn.ContainsPat("isNodeAvailableChanged(RECV.nodes, N)", chk.H("N", node))
+		if len(g.FindPat("isNodeAvailableChanged(RECV.nodes, N)", chk.H("N", node))) == 0 {
+			// the lookup of the stored node made by the caller: `old, known := c.nodes[node.Name]` and
+			// `known && isNodeAvailableChanged(old, node)` (a node seen for the first time is no change, as before)
+			oldN := definedByIdx(g, sn, "RECV.nodes[N.Name]", 0, chk.H("N", node))
+			known := definedByIdx(g, sn, "RECV.nodes[N.Name]", 1, chk.H("N", node))
+			changed = func(e ast.Expr) bool {
+				return definedBy(g, "K && isNodeAvailableChanged(O, N)", chk.H("K", known), chk.H("O", oldN), chk.H("N", node))(e) ||
+					definedBy(g, "isNodeAvailableChanged(O, N) && K", chk.H("K", known), chk.H("O", oldN), chk.H("N", node))(e)
+			}
+			compared = func(n ast.Node) bool {
+				as, ok := n.(*ast.AssignStmt)
+				return ok && len(as.Lhs) == 2 && len(as.Rhs) == 1 && sn.MatchWith("RECV.nodes[N.Name]", as.Rhs[0], chk.H("N", node)) != nil
+			}
+		}
 		es := g.EdgesImplying(chk.GBool(true, changed))
 		x.Check("SetNode:availability-branch", sn.Pos(), len(es) == 1, "", "the result of isNodeAvailableChanged(c.nodes, node) - for any node, not only the local one - does not decide the re-sync")
 		for _, e := range es {
@@ -423,7 +438,7 @@ func c09Resync(p *chk.Prog, r *chk.Report) {
 		store := g.Find(sn.IsAssignPat("RECV.nodes[N.Name]", "N", chk.H("N", node)))
 		x.Check("SetNode:stores-node", sn.Pos(), len(store) == 1, "", "the node is not stored")
 		if len(store) == 1 {
-			w := g.MustPass(chk.Site{}, func(n ast.Node) bool { return n == store[0].Top }, false, sn.ContainsPat("isNodeAvailableChanged(RECV.nodes, N)", chk.H("N", node)))
+			w := g.MustPass(chk.Site{}, func(n ast.Node) bool { return n == store[0].Top }, false, compared)
 			x.Check("SetNode:compare-before-overwrite", posOf(w, sn), !w.Found, "", "the node is overwritten before its availability is compared with the stored one (the comparison then sees no change)")
 		}
 		// conversely, a result other than ReprocessAll (or the error of a failed handler) needs availability unchanged:
@@ -442,6 +457,11 @@ func c09Resync(p *chk.Prog, r *chk.Report) {
 		g := ic.Graph()
 		old := definedBy(g, "M[N.Name]", chk.H("M", isParamIdx(ic, 0)), chk.H("N", isParamIdx(ic, 1)))
 		nw := isParamIdx(ic, 1)
+		if pv := ic.Param(0); pv != nil {
+			if _, isMap := pv.Type().Underlying().(*types.Map); !isMap {
+				old = isParamIdx(ic, 0) // the stored node itself, looked up by the caller
+			}
+		}
 		// the stored node is unknown (comma-ok of the map lookup is false)
 		unknown := chk.GBool(false, func(e ast.Expr) bool {
 			id, ok := ast.Unparen(e).(*ast.Ident)
